@@ -392,6 +392,28 @@ func (vt *v2T) scenC06() {
 		}
 		vt.reset(false)
 	}
+	// a word split with a trailing hyphen (continuation line indented) at every alignment to the read buffer
+	{
+		var mit v2Doc
+		for _, d := range v2Corpus() {
+			if d.Key == "License/MIT/pristine.txt" {
+				mit = d
+			}
+		}
+		txt := strings.Replace(string(mit.Data), "CONNECTION", "CONNEC-\n    TION", 1)
+		txt = "Copyright 2020 Jane Doe\n" + txt
+		ref := vt.match(c, []byte(txt), v2MatchOpts{})
+		nl := v2NLines([]byte(txt))
+		step := 1
+		if !vt.thorough() {
+			step = 2
+		}
+		for pad := 1; pad <= 1024; pad += step {
+			r := vt.match(c, append(bytes.Repeat([]byte(" "), pad), txt...), v2MatchOpts{})
+			vt.pair(ref, r, fmt.Sprintf("hyphen-pad:%d", pad), 0, v2Ident(nl), false, nil, map[string]interface{}{"label": "MIT split", "nolines": false})
+		}
+		vt.reset(false)
+	}
 	// probes of the recorded call-site findings (replayed model counter-examples)
 	vt.probeC06()
 }
